@@ -151,6 +151,13 @@ func (qe *QueryExecutor) executeQuery(
 func (qe *QueryExecutor) checkForUpdates(
 	p peer.ID, taskData ResponseTask, rb responseassembler.ResponseBuilder) error {
 	for {
+		// an error signal (the requestor's cancel, a network error, a cancel command) ends the
+		// response: it is never left waiting behind a pause that happens to be signalled as well
+		select {
+		case err := <-taskData.Signals.ErrSignal:
+			return err
+		default:
+		}
 		select {
 		case <-taskData.Signals.PauseSignal:
 			rb.PauseRequest()
